@@ -601,6 +601,109 @@ def case_midpoint(case):
     return obs
 
 
+def case_merge(case):
+    """extract_1d(merge=True): adjacent layers are combined exactly when ALL
+    properties agree; values and thicknesses of the merged model describe
+    the same layering."""
+    nz, aniso = case
+    E = shadow.load()
+    c = set_ctx(Ctx(timeout_ms=60000))
+    State.OBJECT_ALLOC = True
+    warnings.filterwarnings('ignore')
+    grp = f"extract_1d merge=True, {nz} layers, {aniso}"
+    TM = _mesh_class(E)
+    saved = [(E.models.meshes, 'TensorMesh', E.models.meshes.TensorMesh),
+             (E.models.Model, '_check_positive_finite',
+              E.models.Model._check_positive_finite)]
+    E.models.meshes.TensorMesh = TM
+    E.models.Model._check_positive_finite = lambda self, *a, **k: None
+    names = ['property_x'] + (['property_z'] if aniso == 'VTI' else [])
+    obs = []
+    pats = set()
+
+    def run():
+        c.side, c.side_notes, c.recips, c.recip_den = [], [], {}, {}
+        c._feas = None
+        hz = sym_array('hz', (nz,), positive=True)
+        grid = TM([_qarr([1, 2]), _qarr([1]), hz], (0., 0., 0.))
+        lay = {nm: sym_array('L'+nm[-1], (nz,), positive=True)
+               for nm in names}
+        kw = {}
+        for nm in names:
+            a = np.empty((2, 1, nz), dtype=object)
+            for k in range(nz):
+                a[:, :, k] = lay[nm][k]
+            kw[nm] = a.view(symx.SymArray)
+        model = E.models.Model(grid, mapping='Resistivity', **kw)
+        oned = model.extract_1d('midpoint', (0.5, 0.5), merge=True)
+        return oned, lay, hz
+
+    try:
+        for (oned, lay, hz), pc, tr in c.explore(run, budget_s=600):
+            c.pc = pc
+            t1 = time.time()
+            out = {nm: [Q._co(v) for v in np.asarray(
+                getattr(oned, nm), dtype=object)[0, 0, :]] for nm in names}
+            ohz = [Q._co(v) for v in np.asarray(oned.grid.h[2],
+                                                dtype=object).ravel()]
+            nrun = len(ohz)
+            bad = None
+            # which original layers form each run: decided by the path
+            # (equalities of adjacent layers); reconstruct greedily
+            runs, j = [], 0
+            for r in range(nrun):
+                start = j
+                j += 1
+                while j < nz and all(c.valid(
+                        symx.qt(lay[nm][j]) == symx.qt(lay[nm][j-1]),
+                        label='same layer')[0] == 'held' for nm in names):
+                    j += 1
+                runs.append((start, j))
+            if j != nz or any(len(out[nm]) != nrun for nm in names):
+                bad = "merged model does not partition the layers"
+            pats.add(tuple(runs))
+            if bad is None:
+                for r, (a_, b_) in enumerate(runs):
+                    tot = Q(Fraction(0))
+                    for k in range(a_, b_):
+                        tot = tot + hz[k]
+                        for nm in names:
+                            if _valid_eq(c, out[nm][r],
+                                         lay[nm][k]) != 'held':
+                                bad = (f"merged layer {r} does not carry "
+                                       f"the value of original layer {k} "
+                                       f"({nm})")
+                    if _valid_eq(c, ohz[r], tot) != 'held':
+                        bad = bad or f"thickness of merged layer {r} wrong"
+                # adjacent runs must differ in at least one property
+                for r in range(nrun-1):
+                    k = runs[r][1]
+                    same = z3.And(*[symx.qt(lay[nm][k]) ==
+                                    symx.qt(lay[nm][k-1]) for nm in names])
+                    if c.valid(z3.Not(same), label='differ')[0] != 'held':
+                        bad = bad or ("layers that may be identical are "
+                                      "not merged")
+            obs.append(ob(
+                f"runs {runs}: merged values/thicknesses describe the same "
+                f"layering; merged exactly where all properties agree",
+                'cex' if bad else 'held', group=grp, cls='LIN',
+                seconds=time.time()-t1, note=bad or '',
+                key=f"extract_1d merge: {bad}" if bad else None,
+                cex=dict(kind='merge', nz=nz, aniso=aniso,
+                         runs=[list(x) for x in runs], what=bad)
+                if bad else None))
+    except Inconclusive as e:
+        obs.append(ob("exploration budget", 'unknown', group=grp,
+                      note=str(e)))
+    finally:
+        for m_, n_, v_ in saved:
+            setattr(m_, n_, v_)
+    obs.append(ob(f"reachability: {len(pats)} merge patterns of "
+                  f"{2**(nz-1)}", 'twin_sat' if len(pats) == 2**(nz-1)
+                  else 'twin_unsat', group=grp, cls='LIN', nontrivial=False))
+    return obs
+
+
 # ==========================================================================
 # (B) layered simulation with an uninterpreted 1D modeller
 # ==========================================================================
@@ -1000,6 +1103,33 @@ def replay(cex):
         return bool(msgs), (f"real extract_1d {cex['method']} mask "
                             f"{cex['mask']}: " + ('; '.join(msgs) or
                                                   'as specified'))
+    if kind == 'merge':
+        nz = cex['nz']
+        runs = cex.get('runs') or [[k, k+1] for k in range(nz)]
+        grid = emg3d.TensorMesh([np.array([1., 2.]), np.array([1.]),
+                                 rng.uniform(1, 3, nz)], (0, 0, 0))
+        vx, vz = np.zeros(nz), np.zeros(nz)
+        for r, (a_, b_) in enumerate(runs):
+            vx[a_:b_] = 1.0+r          # horizontal: differs between runs
+            vz[a_:b_] = 2.0            # vertical: equal everywhere
+        msgs = []
+        for kwz in ([dict()] if cex['aniso'] != 'VTI' else
+                    [dict(property_z=np.ones((2, 1, nz))*vz),
+                     dict(property_z=np.ones((2, 1, nz))*(vx+5))]):
+            m = emg3d.Model(grid, property_x=np.ones((2, 1, nz))*vx,
+                            mapping='Resistivity', **kwz)
+            o = m.extract_1d('midpoint', (0.5, 0.5), merge=True)
+            if o.shape[2] != len(runs):
+                msgs.append(f"{o.shape[2]} merged layers, expected "
+                            f"{len(runs)} (vertical property "
+                            f"{'constant' if kwz and kwz['property_z'].std() == 0 else 'varying'})")
+                continue
+            for r, (a_, b_) in enumerate(runs):
+                if o.property_x[0, 0, r] != vx[a_] or not np.isclose(
+                        o.grid.h[2][r], grid.h[2][a_:b_].sum()):
+                    msgs.append(f"merged layer {r} wrong")
+        return bool(msgs), ("real extract_1d(merge=True): " +
+                            ('; '.join(msgs[:3]) or 'as specified'))
     if kind == 'layered':
         return replay_layered(cex)
     return False, 'unknown kind'
@@ -1171,6 +1301,10 @@ def main(tier):
     jobs = [('case_layered', x) for x in lay]
     jobs += [('case_extract', x) for x in ext]
     jobs += [('case_midpoint', x) for x in mids]
+    jobs += [('case_merge', x) for x in ([(3, 'VTI'), (3, 'iso')]
+                                         if tier == 'quick' else
+                                         [(3, 'VTI'), (4, 'VTI'),
+                                          (4, 'iso')])]
     obs = pmap(_dispatch, jobs)
     run.add(obs)
     run.bounds = dict(
@@ -1201,7 +1335,8 @@ def main(tier):
                  "in (A) (C14's subject)", "process_map sequential branch "
                  "(tqdm None)"]
     run.outside = ["empymod's numerics (Hankel transforms)", "the ellipse "
-                   "geometry of maps.ellipse_indices", "merge=True",
+                   "geometry of maps.ellipse_indices", "merge=True inside "
+                   "the layered simulation",
                    "more than 3x3 horizontal cells", "jvec (not implemented "
                    "for layered)", "file/pool execution (C11)"]
     run.explanation = (
